@@ -35,7 +35,7 @@ BUDGET = {
 def _case(draw, tier):
     big = tier == "thorough"
     desc = draw(gen.wellformed(max_targets=9 if big else 7, max_files=12 if big else 10, ticks=3, min_targets=3,
-                               shapes=(0, 2, 4), spellings=(0, 1)))
+                               shapes=(0, 2, 4), spellings=(0, 1, 4, 5, 7)))
     names = [t["name"] for t in desc["targets"]]
     step = st.one_of(
         st.tuples(st.just("run"), st.one_of(st.just([]), st.just([]), gen.patterns(names))),
